@@ -112,6 +112,7 @@ type pubCfg struct {
 	QueueMax      int     `json:"client_queue_max_size"`
 	FailWriteAt   int     `json:"fail_write_at,omitempty"`
 	DiscCode      uint32  `json:"disconnect_code,omitempty"`
+	FlushAtDrain  int     `json:"flush_started_after_writer_drain_number,omitempty"`
 }
 
 type step struct {
@@ -163,6 +164,9 @@ func runPublic(c *kit.Case) {
 	disc := kit.Pick(r, discCodes)
 	if cfg.Scenario == "flush" {
 		cfg.DiscCode = disc.Code
+		if r.Chance(1, 2) {
+			cfg.FlushAtDrain = r.Range(1, 12)
+		}
 	}
 	noflushVia := kit.Pick(r, []string{"closefn", "disconnect"})
 
@@ -388,13 +392,41 @@ func runPublic(c *kit.Case) {
 		}
 		switch cfg.Scenario {
 		case "flush":
+			var once sync.Once
+			doDisc := func() {
+				once.Do(func() {
+					discCallSeq.Store(w.Seq())
+					conn.Client.Disconnect(disc)
+				})
+			}
+			if cfg.FlushAtDrain > 0 {
+				// Start the flushing disconnect from inside the writer, right after its n-th
+				// queue drain and before the transport write of what it drained (the writer
+				// holds its mutex there: the disconnect must wait for that write). The writer
+				// goroutine yields a bounded number of times, never sleeps.
+				var drains atomic.Int64
+				var racerDone atomic.Bool
+				kit.SetNodelessHook(node, func(point string) {
+					if point != "writer.afterDrain" || drains.Add(1) != int64(cfg.FlushAtDrain) {
+						return
+					}
+					c.Count("flush_started_between_drain_and_write", 1)
+					go func() {
+						doDisc()
+						racerDone.Store(true)
+					}()
+					// Client.Disconnect closes asynchronously: wait for the transport close itself
+					if kit.SpinUntil(func() bool { cl, _, _ := conn.T.Closed(); return cl && racerDone.Load() }, 3000) {
+						c.Count("transport_closed_between_drain_and_write", 1)
+					}
+				})
+			}
 			wg.Add(1)
 			go func() {
 				defer wg.Done()
 				time.Sleep(actAt)
 				kit.Yield(actYield)
-				discCallSeq.Store(w.Seq())
-				conn.Client.Disconnect(disc)
+				doDisc()
 			}()
 		case "noflush":
 			wg.Add(1)
@@ -1445,7 +1477,7 @@ func TestC12(t *testing.T) {
 		Rule: "every case runs in a virtual-time bubble; (index/16 + index%16) mod 8 selects the kind of case. " +
 			"0-4 public path: one Client on a recording transport, writer configured through ConnectReply{WriteDelay 0/0.5/1/5/20ms, MaxMessagesInFrame 0/-1/1/2/3/8/64, QueueInitialCap 0/1/2/4/16, QueueShrinkDelay default/immediate/3ms/50ms, WriteWithTimer, ReplyWithoutQueue}, JSON/Protobuf, bi/unidirectional; " +
 			"1-4 producer goroutines call Client.Send with unique ids (producer:seq, padded payloads 20-1500 bytes) in bursts and at PRNG-chosen virtual instants, an RPC command producer feeds the reply path; transport latency none / seeded Gosched yields inside Write / seeded virtual sleeps inside Write; " +
-			"scenarios: steady (all accepted messages must arrive), Client.Disconnect with a flushing code at a PRNG instant (everything accepted before the call must arrive before Transport.Close, close code preserved), close without flush, blocked transport + burst beyond ClientQueueMaxSize (the first Send that takes the pending payload beyond the limit must fail, transport closed with 3008; a below-limit variant must stay open), failing write call n (closed with 3009, nothing recorded after). " +
+			"scenarios: steady (all accepted messages must arrive), Client.Disconnect with a flushing code at a PRNG instant or (half of them) started from inside the writer right after its n-th queue drain, before the write of what it drained (everything accepted before the call must arrive before Transport.Close, in order, close code preserved), close without flush, blocked transport + burst beyond ClientQueueMaxSize (the first Send that takes the pending payload beyond the limit must fail, transport closed with 3008; a below-limit variant must stay open), failing write call n (closed with 3009, nothing recorded after). " +
 			"Always: every written message was queued, intact, at most once; a message whose enqueue returned before another's began is written first; no accepted message is skipped while a later one is written. " +
 			"5-6: internal/queue vs a slice model over 60-400 random Add/AddMany/Remove/RemoveMany/RemoveManyInto/RemoveManyIntoShrink/Wait/FinishCollect(0|delay)/sleep/Close/CloseRemaining operations with Len/Size/Cap/Closed compared after each. " +
 			"7: 3-6 concurrent producer/consumer histories per case on internal/queue checked with porcupine against a FIFO model. Non-trivial = a case that wrote frames / executed operations; signature = configuration x outcome x batch/backlog buckets.",
@@ -1462,7 +1494,7 @@ func TestC12(t *testing.T) {
 		CaseTimeout: 120 * time.Second,
 		RequireCounters: []string{"scenario_steady", "scenario_flush", "scenario_noflush", "scenario_slow", "scenario_fail",
 			"timer_mode_cases", "write_delay_goroutine_mode_cases", "no_write_delay_cases", "latency_yield", "latency_sleep",
-			"frames_in_multi_message_writes", "flush_delivered_after_disconnect_call", "slow_consumer_closes", "slow_below_limit_cases", "write_error_closes",
+			"frames_in_multi_message_writes", "flush_delivered_after_disconnect_call", "flush_started_between_drain_and_write", "slow_consumer_closes", "slow_below_limit_cases", "write_error_closes",
 			"replies_through_queue", "replies_without_queue", "queue_growth_inferred_cases", "producer_switches_in_delivery",
 			"queue_grow_events", "queue_shrink_events", "queue_delayed_shrink_events", "queue_shrinks_with_items_present", "queue_blocking_waits",
 			"queue_close_ops", "queue_close_remaining_ops", "queue_conc_histories", "queue_conc_overlapping_op_pairs"},
